@@ -1282,6 +1282,12 @@ int32_t tls13ParsePreSharedKey(ssl_t *ssl,
         psk = ssl->sec.tls13SessionPskList;
         while (psk)
         {
+            /* The index counts the identities of our ClientHello. */
+            if (!tls13ClientOffersPsk(ssl, psk))
+            {
+                psk = psk->next;
+                continue;
+            }
             if (ix == selectedIdentity)
             {
                 foundPsk = PS_TRUE;
